@@ -3,7 +3,7 @@ from pyvc.api import *
 from contracts.graph import G, M, N, SHAPES, SHAPES_IFACE, install_graph_models
 
 IFACE = "liesel/goose/interface.py"
-STRONG = {"hier": ["tau", "mu", "y"], "diamond": ["a", "y"], "flat": ["b", "c", "y"], "direct": ["b", "c", "y"]}
+STRONG = {"hier": ["tau", "mu", "y"], "diamond": ["a", "y"], "flat": ["b", "c", "y"], "direct": ["b", "c", "y"], "weakdist": ["a", "b"], "weakdist_deep": ["a", "b"], "transformed": ["p", "x_transformed"]}
 
 
 def simple_iface_unit(cls):
@@ -52,13 +52,23 @@ for _c in ("DictInterface", "DataclassInterface", "NamedTupleInterface"):
     simple_iface_unit(_c)
 
 
-def liesel_unit(shape, rel=IFACE, cls="LieselInterface", auto_update=True, uid=None, prop="C03"):
+def expect_transformed(ip, r2, p2):
+    """spec for shape 'transformed', written from the model definition: x = b_p(t) with the default bijector of D at the CURRENT p"""
+    P, T = p2["p"], p2["x_transformed_value"]
+    x = r2["x_value"].f["value"]
+    return [("original_variable_is_bijector_image_at_the_state_s_parameter", is_z3(x) and x.eq(ip.uf("fwd_default_D", P, T)))]
+
+
+EXPECT = {"transformed": expect_transformed}
+
+
+def liesel_unit(shape, rel=IFACE, cls="LieselInterface", auto_update=True, uid=None, prop="C03", single_key=False):
     @unit(uid or (f"C03.{cls}.{shape}" + ("" if auto_update else ".auto_update_off")), prop, [f"{rel}::{cls}.__init__", f"{rel}::{cls}.update_state", f"{rel}::{cls}.extract_position", f"{rel}::{cls}.log_prob",
                                         f"{M}::Model._copy_computational_model", f"{M}::Model.state.fget", f"{M}::Model.state.fset", f"{M}::Model.update", f"{N}::Node.state.fset",
                                         f"{N}::Node.clear_state", f"{N}::Value.value.fset"],
           assumptions=[f"graph shape '{shape}', values / functions / distributions arbitrary", "A-PY: deepcopy duplicates the object graph preserving sharing",
                        "eager semantics only: equality with jit / vmap execution is bounded (A-JIT / A-VMAP are assumptions of this framework)"])
-    def u(ip, shape=shape, rel=rel, cls=cls, auto_update=auto_update):
+    def u(ip, shape=shape, rel=rel, cls=cls, auto_update=auto_update, single_key=single_key):
         """update_state(p, s) returns exactly the state the model itself reaches by assigning p directly and updating fully (every
         node's value, nothing outdated); the result does not depend on earlier calls (history independence); s and the user's model
         are not modified; extract_position gives p back (variable and node names); log_prob(state) is the model log-probability at
@@ -87,12 +97,17 @@ def liesel_unit(shape, rel=IFACE, cls="LieselInterface", auto_update=True, uid=N
         names = STRONG[shape]
         p1 = {names[0]: z3.Const("p1_0", U), f"{names[1]}_value": z3.Const("p1_1", U)}
         p2 = {names[0]: z3.Const("p2_0", U), f"{names[1]}_value": z3.Const("p2_1", U)}
+        if len(names) >= 3:  # the earlier, unrelated call writes a DIFFERENT key on the SAME state object: nothing of it may be left over
+            p1 = {names[2]: z3.Const("p1_other", U)}
+        if single_key:  # a position with ONE entry (a second assignment would trigger a second refresh and can mask a wrong update order)
+            p1, p2 = ({names[1]: z3.Const("p1_other", U)} if len(names) >= 2 else {names[0]: p1[names[0]]}), {names[0]: p2[names[0]]}
         r_hist = ip.call(method(ip, iface, "update_state"), [dict(p1), s], {})  # an earlier, unrelated call
         r2 = ip.call(method(ip, iface, "update_state"), [dict(p2), s], {})
         # reference: direct assignment on a fresh copy of the user's model + full update
         ref = g.build(*SHAPES_IFACE[shape](G(ip)))
         ip.setattr(ref.f["_vars"][names[0]], "value", p2[names[0]])
-        ip.setattr(ref.f["_nodes"][f"{names[1]}_value"], "value", p2[f"{names[1]}_value"])
+        if not single_key:
+            ip.setattr(ref.f["_nodes"][f"{names[1]}_value"], "value", p2[f"{names[1]}_value"])
         ip.call(method(ip, ref, "update"), [], {})
         ref_state = ip.getattr(ref, "state")
         same_keys = list(r2) == list(ref_state)
@@ -103,6 +118,14 @@ def liesel_unit(shape, rel=IFACE, cls="LieselInterface", auto_update=True, uid=N
                 eq = (a is b) or (a is None and b is None) or (is_z3(a) and is_z3(b) and a.sort() == b.sort() and z3.is_true(z3.simplify(a == b))) or (not is_z3(a) and not is_z3(b) and a == b)
                 c.oblige(f"equals_direct_assignment.{k}", bool(eq))
             c.oblige("nothing_outdated", not any(ip.truth(v.f["outdated"]) is True for v in r2.values()))
+            # ... and the state an INDEPENDENT evaluator computes from the assigned values (the reference model above runs the code under test)
+            from contracts.c01 import from_scratch, same_value
+            fs = from_scratch(ip, ref, {"on": False, "n": {}})
+            stale = [k for k in r2 if k in ref.f["_nodes"] and ref.f["_nodes"][k].clsname in ("Value", "Data", "Calc", "Dist") and not (same_value(ip, r2[k].f["value"], fs[id(ref.f["_nodes"][k])]) or isinstance(fs[id(ref.f["_nodes"][k])], float))]
+            c.oblige("every_node_holds_its_from_scratch_value", not stale, stale=str(stale))
+        if same_keys and shape in EXPECT and not single_key:
+            for nm_, ok_ in EXPECT[shape](ip, r2, p2):
+                c.oblige(nm_, bool(ok_))
         c.oblige("input_state_not_modified", all(s[k].f["value"] is s_snapshot[k][0] and s[k].f["outdated"] is s_snapshot[k][1] for k in s_snapshot))
         c.oblige("user_model_untouched", observe(model) == user_snapshot)
         got = ip.call(method(ip, iface, "extract_position"), [list(p2), r2], {})
@@ -116,6 +139,11 @@ for _s in SHAPES:
     liesel_unit(_s)
 liesel_unit("direct")  # position keyed by VARIABLE name for a variable whose value node has a direct consumer
 liesel_unit("direct", auto_update=False)
+liesel_unit("transformed")  # default bijector depending on a model variable: functions are shared between the user's model and the private copy
+liesel_unit("weakdist_deep")
+liesel_unit("weakdist_deep", uid="C03.LieselInterface.weakdist_deep.single_key", single_key=True)
+liesel_unit("direct", uid="C03.LieselInterface.direct.single_key", single_key=True)
+liesel_unit("weakdist")  # a weak variable that carries a distribution: the distribution must be refreshed AFTER the variable's value calculation
 liesel_unit("diamond", "liesel/model/goose.py", "GooseModel")
 liesel_unit("diamond", auto_update=False)
 liesel_unit("hier", auto_update=False)
